@@ -14,13 +14,15 @@ PLAN = {
 RULE = ("a case is (hash algorithm, secret p as text or bytes - empty, Unicode, long, containing a unique token -, a set "
         "of near-miss secrets q: prefix, suffix, case flip, appended NUL, the base64 of the digest, p as the other "
         "type), a placement (root, nested schema, list item, ListField(ChallengeField), default given as plaintext or "
-        "as a digest value) and formats; checks: digest == H(salt || p) recomputed with hashlib, salt length == digest "
+        "as a digest value), a feature flag in front of the challenge fields of the sections (none, on, undecided, off by "
+        "default / assignment / document, switched on after the assignment) and formats; checks: digest == H(salt || p) recomputed with hashlib, salt length == digest "
         "size, two assignments give different salts, challenge(p) succeeds and challenge(q) fails, the token of p is "
         "absent from repr/str/pickle of the value and from every serialised form, salt and digest survive "
         "dumps/loads in every format so the same challenges keep their outcome, and a plaintext written by hand into "
         "a document is hashed on load; non-trivial = non-empty p with >= 3 near misses judged; distinct = distinct "
         "case content")
-REQUIRED = ("dict_of_challenges_checks", "plaintext_in_hand_typed_xml_hashed", "byte_string_secrets_given_as_default", "sibling_text_lists_taken_over", "digest_values_made_with_a_chosen_salt", "chosen_salts_refused", "secrets_of_round_sizes", "secrets_of_whole_mebibytes", "secrets_shaped_like_references", "printed_forms_parsed_back", "byte_secrets_that_are_not_utf8", "digest_values_with_other_salt_length", "plaintext_in_included_file_hashed", "same_field_reassignments", "env_bound_unset_variable", "reset_default_checks", "bulk_list_salt_checks", "digests_recomputed", "fresh_salt_checks", "challenge_accepts_p", "challenge_rejects_q", "leak_scans_memory",
+REQUIRED = ("sections_bound_to_a_feature_flag", "secrets_assigned_with_the_feature_switched_off", "features_switched_on_after_the_secret",
+            "dict_of_challenges_checks", "plaintext_in_hand_typed_xml_hashed", "byte_string_secrets_given_as_default", "sibling_text_lists_taken_over", "digest_values_made_with_a_chosen_salt", "chosen_salts_refused", "secrets_of_round_sizes", "secrets_of_whole_mebibytes", "secrets_shaped_like_references", "printed_forms_parsed_back", "byte_secrets_that_are_not_utf8", "digest_values_with_other_salt_length", "plaintext_in_included_file_hashed", "same_field_reassignments", "env_bound_unset_variable", "reset_default_checks", "bulk_list_salt_checks", "digests_recomputed", "fresh_salt_checks", "challenge_accepts_p", "challenge_rejects_q", "leak_scans_memory",
             "leak_scans_documents", "roundtrips_digest_unchanged", "plaintext_in_document_hashed", "alg:md5", "alg:sha1",
             "alg:sha224", "alg:sha256", "alg:sha384", "alg:sha512")
 ASSUMPTIONS = ["hashlib is the reference implementation of the six algorithms", "documents are produced/decoded with the "
@@ -74,7 +76,7 @@ def generate(rng, ctx):
         return {"alg": alg, "p": raw, "tok": tok, "place": rng.choice(["root", "nested", "list-of-challenge", "default-digest", "assigned-digest"]),
                 "salt_len": rng.choice([None, None, 1, -1, 8, "double", "hexlike3", "hexlike48"]),
                 "fmts": rng.sample(trees.FORMATS, rng.choice([2, 3, 5])), "upper": rng.random() < 0.3,
-                "env": rng.choice([None, None, "field-named", "schema-prefix"]), "reassign_route": "attr"}
+                "env": rng.choice([None, None, "field-named", "schema-prefix"]), "reassign_route": "attr", "flag": _flag(rng)}
     return {"alg": alg, "p": p.encode() if as_bytes else p, "tok": tok if tok in p else None, "size": size, "kind": kind,
             "place": rng.choice(["root", "nested", "list-item", "list-of-challenge", "default-plain", "default-digest",
                                  "assigned-digest"]),
@@ -83,7 +85,15 @@ def generate(rng, ctx):
             "fmts": rng.sample(trees.FORMATS, rng.choice([2, 3, 5])), "upper": rng.random() < 0.3,
             # the field may be bound to an environment variable that is NOT set (must behave as if unbound)
             "env": rng.choice([None, None, "field-named", "field-auto", "schema-prefix"]),
-            "reassign_route": rng.choice(["attr", "item", "attr"])}
+            "reassign_route": rng.choice(["attr", "item", "attr"]),
+            # the sections that hold the challenge fields may be bound to a feature flag, switched off in various ways
+            "flag": _flag(rng)}
+
+
+def _flag(rng):
+    """How the feature flag of the sections is declared and set before the secret is assigned (None: no flag field)."""
+    return weighted(rng, [(5, None), (2, "default-false"), (1.5, "assigned-false"), (1.5, "loaded-false"), (1, "default-true"),
+                          (0.5, "undecided"), (1, "off-then-on")])
 
 
 def abbreviate(case):
@@ -149,6 +159,11 @@ def run(case, ctx, res):
         res.count("env_bound_unset_variable")
     schema = cc.Schema(env="VFC09P") if envmode == "schema-prefix" else cc.Schema()
     item = cc.Schema(env="VFC09I") if envmode == "schema-prefix" else cc.Schema()
+    flag = case.get("flag")
+    flag_default = {"default-false": False, "off-then-on": False, "undecided": None}.get(flag, True)
+    if flag:
+        # a feature flag in front of the challenge field of a list item, ...
+        item.enabled = cc.FeatureFlagField(default=flag_default)
     item.pw = cc.ChallengeField(algname)
     item.n = cc.IntField(default=0)
     kw = {}
@@ -174,6 +189,10 @@ def run(case, ctx, res):
         kw["env"] = "VFC09_PW"
     elif envmode == "field-auto":
         kw["env"] = True
+    if flag:
+        # ... of the root and of the nested section: a switched-off feature still keeps only salted hashes of its secrets
+        schema.enabled = cc.FeatureFlagField(default=flag_default)
+        schema.sub.deep.enabled = cc.FeatureFlagField(default=flag_default)
     schema.pw = cc.ChallengeField(algname, **kw)
     schema.sub.deep.pw = cc.ChallengeField(algname, **({"env": "VFC09_DEEP"} if envmode == "field-named" else {}))
     schema.items = cc.ListField(item)
@@ -185,6 +204,14 @@ def run(case, ctx, res):
 
     def build():
         cfg = schema()
+        off = {}
+        if flag == "assigned-false":
+            cfg.enabled = False
+            cfg.sub.deep.enabled = False
+            off = {"enabled": False}
+        elif flag == "loaded-false":
+            cfg.load_tree({"enabled": False, "sub": {"deep": {"enabled": False}}})
+            off = {"enabled": False}
         if place == "root":
             cfg.pw = p
         elif place == "assigned-digest":
@@ -192,9 +219,13 @@ def run(case, ctx, res):
         elif place == "nested":
             cfg.sub.deep.pw = p
         elif place == "list-item":
-            cfg.items = [{"pw": p if isinstance(p, str) else p.decode(), "n": 1}, {"n": 2}]
+            cfg.items = [dict(off, pw=p if isinstance(p, str) else p.decode(), n=1), dict(off, n=2)]
         elif place == "list-of-challenge":
             cfg.pws = [p, "other-secret", p]
+        if flag == "off-then-on":
+            # the secret was assigned while the feature was off; the feature is switched on afterwards
+            cfg.enabled = True
+            cfg.sub.deep.enabled = True
         return cfg
 
     def value_of(cfg):
@@ -241,7 +272,22 @@ def run(case, ctx, res):
         return
     if place == "default-plain" and not isinstance(p, str):
         res.count("byte_string_secrets_given_as_default")
-    v1, v2 = value_of(cfg1), value_of(cfg2)
+    if flag:
+        # what the flags of the root and of the nested section read now (harness self-check: the case is what it says)
+        state = (cfg1.enabled, cfg1.sub.deep.enabled)
+        want_state = {"default-false": False, "assigned-false": False, "loaded-false": False, "undecided": None}.get(flag, True)
+        if state != (want_state, want_state):
+            raise AssertionError("flag mode %s: the flags read %r" % (flag, state))
+        res.count("sections_bound_to_a_feature_flag")
+        if want_state is False:
+            res.count("secrets_assigned_with_the_feature_switched_off")
+        elif flag == "off-then-on":
+            res.count("features_switched_on_after_the_secret")
+    try:
+        v1, v2 = value_of(cfg1), value_of(cfg2)
+    except (AttributeError, TypeError, IndexError, KeyError) as exc:
+        res.viol("M-digest", "not-a-digest:" + feat, "the stored secret cannot be read back as a challenge value: %r" % (exc,))
+        return
     if not isinstance(v1, cc.DigestValue):
         res.viol("M-digest", "not-a-digest:" + feat, "challenge field holds %r after assigning the secret" % (v1,))
         return
